@@ -1253,6 +1253,11 @@ class ThirdCoreHexToFullCoreChanger(GeometryChanger):
     def __init__(self, cs=None):
         GeometryChanger.__init__(self, cs)
         self.listOfVolIntegratedParamsToScale = []
+        self._converted = False
+
+    def reset(self):
+        GeometryChanger.reset(self)
+        self._converted = False
 
     def _scaleBlockVolIntegratedParams(self, b, direction):
         if direction == "up":
@@ -1371,6 +1376,7 @@ class ThirdCoreHexToFullCoreChanger(GeometryChanger):
         self._sourceReactor.core.symmetry = geometry.SymmetryType(
             geometry.DomainType.FULL_CORE, geometry.BoundaryType.NO_SYMMETRY
         )
+        self._converted = True
 
     def restorePreviousGeometry(self, r=None):
         """Undo the changes made by convert by going back to 1/3 core.
@@ -1386,8 +1392,9 @@ class ThirdCoreHexToFullCoreChanger(GeometryChanger):
         """
         r = r or self._sourceReactor
 
-        # remove the assemblies that were added when the conversion happened.
-        if bool(self._newAssembliesAdded):
+        # remove the assemblies that were added when the conversion happened (there are none if
+        # the core is just its center assembly).
+        if self._converted:
             for a in self._newAssembliesAdded:
                 r.core.removeAssembly(a, discharge=False)
 
